@@ -22,7 +22,28 @@ def run_gen_half(ctx, info):
             s = rng.randrange(0, size - w + 1)
             d["objects"].append(adef.mk_register("Wide", 900, size, [adef.mk_field("wide", rng.choice(["uint", "int"]), s, s + w)],
                                                  byte_order=rng.choice(["LE", "BE"]), bit_order=rng.choice([None, "LSB0", "MSB0"])))
+        # beyond 128 bits (the integer reset form is a u128: the array it yields must still span the declared size)
+        if rng.random() < 0.15:
+            size = rng.choice([129, 130, 136, 144, 160, 200, 256])
+            nb = (size + 7) // 8
+            fields = []
+            for k, (lo_min, hi_max) in enumerate([(0, min(size, 128)), (rng.choice([64, 120, 128]), size)]):
+                w = rng.choice([1, 8, 17, min(hi_max - lo_min, 64), min(hi_max - lo_min, 128)])
+                w = max(1, min(w, hi_max - lo_min))
+                s = rng.choice([lo_min, hi_max - w, rng.randrange(lo_min, hi_max - w + 1)])
+                fields.append(adef.mk_field(["lo", "hi"][k], "uint", s, s + w))
+            rv = rng.choice([None, None, rng.choice([0, 1, 0x1234, (1 << 127) | 5, (1 << 128) - 1]), [rng.randrange(256) for _ in range(nb)]])
+            if isinstance(rv, list) and size % 8:
+                rv = [0] * nb
+            huge = adef.mk_register("Huge", 901, size, fields, byte_order=rng.choice(["LE", "BE"]), bit_order=rng.choice([None, "LSB0", "MSB0"]),
+                                    reset_value=rv)
+            huge["allow_bit_overlap"] = True
+            d["objects"].append(huge)
         syntax = rng.choice(["dsl", "dsl", "json", "yaml", "toml"])
+        if syntax != "dsl":
+            for o, _ in adef.walk(d["objects"]):
+                if o["kind"] == "register" and isinstance(o.get("reset_value"), int) and o["reset_value"] >= 2 ** 63:
+                    o["reset_value"] %= 2 ** 63
         cid = f"g{i}"
         defs[cid] = d
         cases.append({"id": cid, "syntax": syntax, "text": adef.render(d, syntax, rng), "name": "Dev", "want": ["mir", "facts"]})
@@ -35,13 +56,29 @@ def run_gen_half(ctx, info):
             if t:
                 terms.append((c["id"], t))
     model = gen_common.eval_model(ctx, ["Layout", "FieldSetGen"], "field_sets_result", terms, tag="fsgen")
-    nacc = 0
+    # a generator panic is not an accepted definition; it must still be one the sequenced pass models predict
+    pterms = []
+    for c in cases:
+        r = res[c["id"]]
+        if r.get("status") in ("panic", "abort"):
+            try:
+                t = gen_common.mir_term(r)
+            except Exception:
+                t = None
+            if t:
+                pterms.append((c["id"], f'40 "Dev"%string ({t})'))
+    pmodel = vlib.coq_eval_strings(ctx, gen_common.PREAMBLE.format(mods="Pipeline"),
+                                   [(i, "pipeline_result " + t) for i, t in pterms], shard_size=20, tag="fsgenp") if pterms else {}
+    nacc = npanic = 0
     shapes = set()
     diffs = []
     for c in cases:
         r = res[c["id"]]
         if r.get("status") in ("panic", "abort"):
-            diffs.append((c, "generator " + r["status"], r.get("message"), None))
+            if pmodel.get(c["id"], "").startswith("panic:"):
+                npanic += 1
+                continue
+            diffs.append((c, "generator " + r["status"] + " not predicted by the pass models", r.get("message"), pmodel.get(c["id"])))
             continue
         if r.get("status") != "ok":
             continue
@@ -70,7 +107,7 @@ def run_gen_half(ctx, info):
             samples.append({"syntax": c["syntax"], "text": c["text"][:600], "facts": fs_common.canon_fs(r["facts"])})
             if len(samples) >= 2:
                 break
-    return {"evaluations": len(cases), "accepted": nacc, "distinct": len(shapes), "samples": samples,
+    return {"evaluations": len(cases), "accepted": nacc, "generator_panics_predicted_by_model": npanic, "distinct": len(shapes), "samples": samples,
             "rule": "boundary-biased definitions through the real transform_*; every load/store call site checked against "
                     "start<end<=size<=8N and width<=carrier, and all field-set facts compared with FieldSetGen.v on the real MIR; "
                     "distinct = (size, start mod 8, end mod 8, carrier, function, byte order) call-site shapes"}
